@@ -186,13 +186,13 @@ def rule_blind_sign_gated(ctx, cfg='prod-all'):
 C14_REQS = [
     (ZKI + 'verify_proof', [
         {'id': 'multi-secret-pok', 'what': 'PoK of the committed attributes gates acceptance and depends on C, the bases, b, N and the hidden positions',
-         'gate_callee': ['PartialEq'], 'in_fn': ['nispMultiSecrets_verify_proof'],
+         'gate_callee': ['PartialEq'],
          'cover': ['C.value', 'a_bases', 'signer_pk.b', 'signer_pk.N', 'unrevealed_message_indexes', 'self.proof_commited_msgs']},
-        {'id': 'per-attribute-pok', 'any_path': True, 'what': 'per-attribute PoK gates acceptance with base a_i', 'gate_callee': ['PartialEq'], 'in_fn': ['nisp2sec_verify_proof'],
+        {'id': 'per-attribute-pok', 'any_path': True, 'what': 'per-attribute PoK gates acceptance with base a_i', 'gate_callee': ['PartialEq'],
          'cover': ['self.proofs_commited_mi', 'a_bases', 'unrevealed_message_indexes', 'signer_pk.b', 'signer_pk.N']},
-        {'id': 'range-proof-mi', 'any_path': True, 'what': 'per-attribute range proof gates acceptance', 'gate_callee': ['PartialEq'], 'in_fn': ['verify_of_square_decomposition_range'],
+        {'id': 'range-proof-mi', 'any_path': True, 'what': 'per-attribute range proof gates acceptance', 'gate_callee': ['PartialEq'],
          'cover': ['self.range_proofs_mi', 'signer_pk.N', 'a:lm']},
-        {'id': 'pok-r', 'what': 'PoK of the commitment randomness gates acceptance', 'gate_callee': ['PartialEq'], 'in_fn': ['nisp2sec_verify_proof'],
+        {'id': 'pok-r', 'what': 'PoK of the commitment randomness gates acceptance', 'gate_callee': ['PartialEq'],
          'cover': ['self.proof_r', 'a_bases', 'signer_pk.b', 'signer_pk.N']},
     ]),
 ]
@@ -435,14 +435,14 @@ def rule_nisp5_challenge(ctx, cfg='prod-all'):
 C15_REQS = [
     (POKI + 'proof_verify', [
         {'id': 'spok-challenge', 'what': 'recomputed challenge == transmitted challenge gates acceptance and depends on every response, commitment value, key, base, revealed message, position set and count',
-         'gate_callee': ['PartialEq'], 'in_fn': ['nisp5_MultiAttr_verify_proof'],
+         'gate_callee': ['PartialEq'],
          'cover': ['self.spok.challenge', 'self.spok.s_1', 'self.spok.s_2', 'self.spok.s_3', 'self.spok.s_4', 'self.spok.s_5', 'self.spok.s_6', 'self.spok.s_7',
                    'self.spok.s_8', 'self.spok.s_9', 'self.spok.Cx.value', 'self.spok.Cv.value', 'self.spok.Cw.value', 'self.spok.Ce.value',
                    'commitment_pk.g_bases', 'commitment_pk.h', 'signer_pk.N', 'signer_pk.b', 'signer_pk.c', 'a_bases', 'messages',
                    'n_signed_messages']},
-        {'id': 'range-proof-e', 'what': 'range proof on e gates acceptance with bounds from le', 'gate_callee': ['PartialEq'], 'in_fn': ['verify_of_square_decomposition_range'],
+        {'id': 'range-proof-e', 'what': 'range proof on e gates acceptance with bounds from le', 'gate_callee': ['PartialEq'],
          'cover': ['self.range_proof_e', 'commitment_pk.N', 'a:le']},
-        {'id': 'pok-mi', 'any_path': True, 'what': 'per-attribute PoK gates acceptance with base g_i', 'gate_callee': ['PartialEq'], 'in_fn': ['nisp2sec_verify_proof'],
+        {'id': 'pok-mi', 'any_path': True, 'what': 'per-attribute PoK gates acceptance with base g_i', 'gate_callee': ['PartialEq'],
          'cover': ['self.proofs_commited_mi', 'commitment_pk.g_bases', 'commitment_pk.h', 'commitment_pk.N', 'unrevealed_message_indexes']},
     ]),
 ]
@@ -450,19 +450,16 @@ C15_REQS = [
 # ---------------------------------------------------------------------------------- C16
 C16_REQS = [
     (RP + 'verify', [
-        {'id': 'E_prime', 'what': "E' == E^(2^T) gates acceptance and depends on the bounds (through T) and the modulus", 'gate_callee': ['PartialEq'],
-         'in_fn': ['verify_of_square_decomposition_range'], 'cover': ['self.E_prime', 'self.E', 'module', 'rmin', 'rmax']},
-        {'id': 'decomposition-a', 'what': 'E_a_2 == E_a / E_a_1 gates acceptance and depends on E\', the base, the bounds', 'gate_callee': ['PartialEq'],
-         'in_fn': ['verify_of_tolerance_specific'], 'cover': ['self.proof_of_tolerance.E_a_2', 'self.proof_of_tolerance.E_a_1', 'self.E_prime', 'base1', 'module', 'rmin', 'rmax']},
-        {'id': 'decomposition-b', 'what': 'E_b_2 == E_b / E_b_1 gates acceptance', 'gate_callee': ['PartialEq'],
-         'in_fn': ['verify_of_tolerance_specific'], 'cover': ['self.proof_of_tolerance.E_b_2', 'self.proof_of_tolerance.E_b_1', 'self.E_prime', 'base1', 'module', 'rmin', 'rmax']},
-        {'id': 'square-a', 'what': 'proof of square (a) gates acceptance', 'gate_callee': ['PartialEq'], 'in_fn': ['verify_same_secret'],
+        {'id': 'E_prime', 'what': "E' == E^(2^T) gates acceptance and depends on the bounds (through T) and the modulus", 'gate_callee': ['PartialEq'], 'cover': ['self.E_prime', 'self.E', 'module', 'rmin', 'rmax']},
+        {'id': 'decomposition-a', 'what': 'E_a_2 == E_a / E_a_1 gates acceptance and depends on E\', the base, the bounds', 'gate_callee': ['PartialEq'], 'cover': ['self.proof_of_tolerance.E_a_2', 'self.proof_of_tolerance.E_a_1', 'self.E_prime', 'base1', 'module', 'rmin', 'rmax']},
+        {'id': 'decomposition-b', 'what': 'E_b_2 == E_b / E_b_1 gates acceptance', 'gate_callee': ['PartialEq'], 'cover': ['self.proof_of_tolerance.E_b_2', 'self.proof_of_tolerance.E_b_1', 'self.E_prime', 'base1', 'module', 'rmin', 'rmax']},
+        {'id': 'square-a', 'what': 'proof of square (a) gates acceptance', 'gate_callee': ['PartialEq'],
          'cover': ['self.proof_of_tolerance.proof_of_square_a', 'base1', 'base2', 'module']},
-        {'id': 'square-b', 'what': 'proof of square (b) gates acceptance', 'gate_callee': ['PartialEq'], 'in_fn': ['verify_same_secret'],
+        {'id': 'square-b', 'what': 'proof of square (b) gates acceptance', 'gate_callee': ['PartialEq'],
          'cover': ['self.proof_of_tolerance.proof_of_square_b', 'base1', 'base2', 'module']},
-        {'id': 'large-interval-a', 'what': 'larger-interval proof (a) gates acceptance against E_a_2', 'gate_callee': ['PartialEq'], 'in_fn': ['verify_large_interval_specific'],
+        {'id': 'large-interval-a', 'what': 'larger-interval proof (a) gates acceptance against E_a_2', 'gate_callee': ['PartialEq'],
          'cover': ['self.proof_of_tolerance.proof_large_i_a', 'self.proof_of_tolerance.E_a_2', 'base1', 'base2', 'module']},
-        {'id': 'large-interval-b', 'what': 'larger-interval proof (b) gates acceptance against E_b_2', 'gate_callee': ['PartialEq'], 'in_fn': ['verify_large_interval_specific'],
+        {'id': 'large-interval-b', 'what': 'larger-interval proof (b) gates acceptance against E_b_2', 'gate_callee': ['PartialEq'],
          'cover': ['self.proof_of_tolerance.proof_large_i_b', 'self.proof_of_tolerance.E_b_2', 'base1', 'base2', 'module']},
     ]),
 ]
